@@ -45,6 +45,8 @@ def sync_jobs(cls, extra=()):
     return [sy(cls, weight=5), sy(cls, flavour="O0", weight=1), sy(cls, flavour="asan", weight=1), sy(cls, flavour="fn", weight=2)] + list(extra)
 
 BLOCK_PROBES = ["p_block", "wake_one_spin", "wake_many_spin", "p_steal_hit"]
+BLOCK_ONE = ["p_block", "wake_one_spin", "p_steal_hit"]      # primitives that wake one sleeper at a time
+BLOCK_MANY = ["p_block", "wake_many_spin", "p_steal_hit"]    # primitives that wake a counted set of sleepers
 
 PROPS = {
     "C01": {
@@ -78,12 +80,12 @@ PROPS = {
                  fj({"reap_mask": 63}, flavour="asan", weight=1), fj({"reap_mask": 63}, flavour="fn", weight=2)],
         "relevant_probes": ["p_free_ready2", "p_join_fast", "p_join_next", "p_join_sched"],
     },
-    "C04": {"jobs": sync_jobs("mutex", [sy("mutex", {"nworkers": 1, "helper_pm": 500}, weight=1)]), "relevant_probes": BLOCK_PROBES + ["mutex_cas"]},
-    "C05": {"jobs": sync_jobs("cond"), "relevant_probes": BLOCK_PROBES},
-    "C06": {"jobs": sync_jobs("barrier"), "relevant_probes": BLOCK_PROBES + ["barrier_reset", "sstack_cas"]},
-    "C07": {"jobs": sync_jobs("jc"), "relevant_probes": BLOCK_PROBES + ["jc_cas"]},
+    "C04": {"jobs": sync_jobs("mutex", [sy("mutex", {"nworkers": 1, "helper_pm": 500}, weight=1)]), "relevant_probes": BLOCK_ONE + ["mutex_cas"]},
+    "C05": {"jobs": sync_jobs("cond"), "relevant_probes": BLOCK_ONE},
+    "C06": {"jobs": sync_jobs("barrier"), "relevant_probes": BLOCK_MANY + ["barrier_reset", "sstack_cas"]},
+    "C07": {"jobs": sync_jobs("jc"), "relevant_probes": BLOCK_MANY + ["jc_cas"]},
     "C08": {"jobs": sync_jobs("uncond"), "relevant_probes": ["p_block", "uncond_spin", "uncond_wr"]},
-    "C09": {"jobs": sync_jobs("felock"), "relevant_probes": BLOCK_PROBES + ["felock_status"]},
+    "C09": {"jobs": sync_jobs("felock"), "relevant_probes": BLOCK_ONE + ["felock_status"]},
     "C14": {"jobs": sync_jobs("once"), "relevant_probes": ["once_cas", "once_spin", "once_done_wr"]},
     "C10": {"jobs": [sy("tls", flavour="asan", weight=4), sy("tls", weight=3), sy("tls", {"mode": 2}, weight=2), sy("tls", {"mode": 1}, weight=3), sy("tls", flavour="O0", weight=1), sy("tls", flavour="fn", weight=2)],
             "relevant_probes": ["key_cas", "key_rd", "p_steal_hit"],
